@@ -187,3 +187,59 @@ func verifC04ScheduleTies(K int) {
 
 func VerifHarness_C04_ScheduleTies_3() { verifC04ScheduleTies(3) }
 func VerifHarness_C04_ScheduleTies_4() { verifC04ScheduleTies(4) }
+
+// C04-O1c: many sources.  K sources with exactly one record each (source 0
+// with 1+extra), all timestamps symbolic: every relative order of the first
+// records, hence every shape the merge heap can take for K entries.
+func verifC04MergeWide(K, extra int) {
+	var iters []logiter
+	type rec struct {
+		src, idx int
+		ts       uint64
+	}
+	var all []rec
+	for s := 0; s < K; s++ {
+		n := 1
+		if s == 0 {
+			n += extra
+		}
+		var recs []logstorage.Record
+		prev := uint64(0)
+		for j := 0; j < n; j++ {
+			// only the relative order of timestamps matters to a merge: 8-bit
+			// symbolic values realise every order (ties included) of up to 256 records
+			ts := uint64(vsymByte("ts"))
+			vsymAssume(prev <= ts)
+			prev = ts
+			recs = append(recs, logstorage.Record{Timestamp: otelstorage.Timestamp(ts), Body: strconv.Itoa(s) + ":" + strconv.Itoa(j)})
+			all = append(all, rec{s, j, ts})
+		}
+		iters = append(iters, iterators.Slice(recs))
+	}
+	m := newMergeIter(iters)
+	var r logstorage.Record
+	count := 0
+	var prevTs uint64
+	seen := map[string]bool{}
+	next0 := 0
+	for m.Next(&r) {
+		vsymAssert(!seen[r.Body], "no record is delivered twice")
+		seen[r.Body] = true
+		if len(r.Body) > 2 && r.Body[:2] == "0:" {
+			vsymAssert(r.Body == "0:"+strconv.Itoa(next0), "each container's own order is preserved")
+			next0++
+		}
+		if count > 0 {
+			vsymAssert(prevTs <= uint64(r.Timestamp), "the merged stream is in non-decreasing timestamp order")
+		}
+		prevTs = uint64(r.Timestamp)
+		count++
+		vsymAssert(count <= len(all), "no more records than were put in")
+	}
+	vsymAssert(count == len(all), "every record of every container is delivered exactly once")
+	vsymReach("C04_merge_wide")
+}
+
+func VerifHarness_C04_MergeWide_6x1() { verifC04MergeWide(6, 1) }
+func VerifHarness_C04_MergeWide_8()   { verifC04MergeWide(8, 0) }
+func VerifHarness_C04_MergeWide_9()   { verifC04MergeWide(9, 0) }
